@@ -5,10 +5,10 @@ import ring_common as R
 
 PROP = 'C05'
 BUILDS, MINIMISE, SHARD_TIMEOUT, ASSUMPTIONS = R.BUILDS, R.MINIMISE, R.SHARD_TIMEOUT, R.ASSUMPTIONS
-TRANSLATORS = R.TRANSLATORS + ['spseq']     # the wait condition of `next` (c14gen_next_respects_gating)
+TRANSLATORS = R.TRANSLATORS + ['spseq', 'mpseq']     # the wait condition of `next` (c14gen_next_respects_gating)
 RULE = R.RULE + ('; C05 additionally generates stages that mix a mutable handler with other handlers (about one case in eight, '
                  'known finding F9) and judges every slot access by the slot-exclusion and vector-clock oracles')
-EXTRA_THEOREM_MODULES = ['DcVerif.Props.C14Gen', 'DcVerif.Props.C05Gen', 'DcVerif.Props.C13Gen', 'DcVerif.Lemmas.Ring', 'DcVerif.Lemmas.RingMulti', 'DcVerif.Lemmas.RingHB', 'DcVerif.Lemmas.RingMultiSafe', 'DcVerif.Lemmas.RingMultiHB', 'DcVerif.Lemmas.RingMultiHBW']
+EXTRA_THEOREM_MODULES = ['DcVerif.Props.C14Gen', 'DcVerif.Props.C14MGen', 'DcVerif.Props.C05Gen', 'DcVerif.Props.C13Gen', 'DcVerif.Lemmas.Ring', 'DcVerif.Lemmas.RingMulti', 'DcVerif.Lemmas.RingHB', 'DcVerif.Lemmas.RingMultiSafe', 'DcVerif.Lemmas.RingMultiHB', 'DcVerif.Lemmas.RingMultiHBW']
 classify, nontrivial = R.classify, R.nontrivial
 
 
